@@ -56,7 +56,8 @@ let eval_stream (stream : string) (case : string) (impl : string) : verdict =
                let sp = show (Model.spec_route table m p) in
                let im = if i < Array.length impls then impls.(i) else "?" in
                if sp <> im then begin
-                 let hd x = List.hd (split_on ',' x) in
+                 (* `F+<n>`: the fallback was selected but handed n leftover parameters: same handler, wrong parameters *)
+                 let hd x = let h = List.hd (split_on ',' x) in if String.length h > 1 && h.[0] = 'F' && h.[1] = '+' then "F" else h in
                  if hd sp <> hd im then f11 := true else f12 := true
                end) queries;
            (if !f11 then [("C11", "-")] else []) @ (if !f12 then [("C12", "-")] else [])
@@ -114,6 +115,10 @@ let eval_stream (stream : string) (case : string) (impl : string) : verdict =
   | "prefix" -> let (model, fails) = Parse_o.eval_prefix case impl in { model; fails }
   | "prefixsafe" -> { model = impl; fails = (if String.contains impl 'X' then [("C01", "-")] else []) }
   | "grammar" -> let (model, fails) = Parse_o.eval_grammar case impl in { model; fails }
+  | "poolsrv" ->
+    (* every one of the k handlers met the others: k jobs made progress at the same time *)
+    let ok = impl <> "" && List.for_all (fun x -> x = "200") (split_on ',' impl) in
+    { model = (if ok then impl else "all 200"); fails = (if ok then [] else [("C13", "-")]) }
   | "segpair" -> let (model, fails) = Conn_o.eval_segpair case impl in { model; fails }
   | "readloop" -> let (model, fails) = Conn_o.eval_readloop case impl in { model; fails }
   | "conn05" -> let (model, fails) = Conn_o.eval ["C05"] case impl in { model; fails }
